@@ -50,6 +50,13 @@ func (d *def) sexp() sx.Sexp {
 	if d.hasSer {
 		ser = atoms("l", d.ser)
 	}
+	if len(d.consts) > 0 {
+		ks := []sx.Sexp{}
+		for _, k := range d.consts {
+			ks = append(ks, sx.L(sx.A(k.name), k.dflt.sexp()))
+		}
+		return sx.L(p, sx.L(as...), eq, sx.A(d.eit), ser, sx.T("k", ks...))
+	}
 	return sx.L(p, sx.L(as...), eq, sx.A(d.eit), ser)
 }
 
@@ -276,6 +283,27 @@ func genChain(r *rand.Rand) []def {
 			}
 		} else if len(d.attrs) > 0 && r.Intn(60) == 0 {
 			d.attrs[r.Intn(len(d.attrs))].override = true // nothing to override
+		}
+		if r.Intn(6) == 0 {
+			// constants => {…}: fresh names mostly; sometimes the name of an own attribute (an error) or of an inherited
+			// member (an automatic override: fine for an inherited constant of an accepting type)
+			for k := r.Intn(2) + 1; k > 0 && used < len(namePool); k-- {
+				name := namePool[used]
+				used++
+				if r.Intn(5) == 0 && used > 1 {
+					name = namePool[r.Intn(used-1)]
+				}
+				dup := false
+				for _, x := range d.consts {
+					dup = dup || x.name == name
+				}
+				if dup {
+					continue
+				}
+				v := witness(r, tyAll[r.Intn(3)])
+				t := map[string]string{"i": "int", "s": "str", "b": "bool"}[v.k]
+				d.consts = append(d.consts, attr{name: name, ty: &ty{k: t}, kind: "c", dflt: &v})
+			}
 		}
 		defs = append(defs, d)
 		// equality / serialization need the specification's view of what exists so far
